@@ -1,0 +1,14 @@
+//go:build verif
+
+package kernel
+
+import (
+	"github.com/MixinNetwork/mixin/common"
+	"github.com/MixinNetwork/mixin/crypto"
+)
+
+// VerifCacheRoundAsFinal exposes how the live node turns a cache round into a final round.
+func VerifCacheRoundAsFinal(nodeId crypto.Hash, number uint64, snapshots []*common.Snapshot) *FinalRound {
+	c := &CacheRound{NodeId: nodeId, Number: number, Snapshots: snapshots}
+	return c.asFinal()
+}
